@@ -173,7 +173,14 @@ def proof_leg(prop, theorems, thorough=False):
 def load_known():
     if not os.path.exists(KNOWN_FILE):
         return []
-    return json.load(open(KNOWN_FILE))["findings"]
+    ks = json.load(open(KNOWN_FILE))["findings"]
+    for k in ks:
+        fps = set(k.get("fingerprints", []))
+        ff = k.get("fingerprints_file")
+        if ff and os.path.exists(os.path.join(VERIF, ff)):
+            fps.update(l.strip() for l in open(os.path.join(VERIF, ff)) if l.strip())
+        k["_fps"] = fps
+    return ks
 
 
 # ---------------------------------------------------------------- pool
@@ -254,7 +261,7 @@ def match_known(prop, violation, known):
     for k in known:
         if k.get("status") != "open" or prop not in k.get("properties", []):
             continue
-        if fp is not None and fp in k.get("fingerprints", []):
+        if fp is not None and fp in k.get("_fps", ()):
             return k
         attr = k.get("attribution")
         if attr and violation.get("attribution") == attr:
